@@ -121,7 +121,7 @@ class SumCnt:
     return [int(state[0]), int(state[1])]
 
 
-GATE_WAIT = 3.0      # the consumer waits at most this long for the producer to run ahead (then goes on, `ahead` = false)
+GATE_WAIT = 8.0      # the consumer waits at most this long for the producer to run ahead (then goes on, `ahead` = false)
 
 
 def _sz_pipeline(n, mods, *, stages=2, nt=0, mark=0, gate=False):
@@ -506,14 +506,32 @@ def sl_tag(st):
   return '[sliced ' + ' '.join(f'{k}={st[k]}' for k in sorted(st)) + ']'
 
 
+def _slice_keys_per_batch(sub, sl):
+  """slice values of a row-level slicer that occur in each batch (from the data; only c02's public SLICE_FNS is used)"""
+  c02 = _c02()
+  out = []
+  for b in sub['batches']:
+    ks = set()
+    for i in range(len(b[sl['keys'][0]])):
+      feats = [b[k][i] for k in sl['keys']]
+      if sl['kind'] == 'default':
+        ks.add(tuple(feats))
+      elif sl['kind'] == 'within':
+        if all(f in w for f, w in zip(feats, sl['within'])):
+          ks.add(tuple(feats))
+      elif sl['kind'] == 'fn':
+        ks.update(v if isinstance(v, tuple) else (v,) for v in c02.SLICE_FNS[sl['fn']](*feats))
+    out.append(ks)
+  return out
+
+
 def _shard_keysets(sub, parts):
   """slice values (of every row slicer) that occur in each shard — from the data, by brute force"""
-  c02 = _c02()
   per_batch = [set() for _ in sub['batches']]
   for sl in sub['slicers']:
     if sl['kind'] == 'mask':
       continue
-    for i, ks in enumerate(c02._slice_keys_per_batch(sub, sl)):
+    for i, ks in enumerate(_slice_keys_per_batch(sub, sl)):
       per_batch[i] |= {(tuple(sl['name']), k) for k in ks}
   return [set().union(*[per_batch[i] for i in part]) if part else set() for part in parts]
 
